@@ -61,6 +61,28 @@ static std::string run_config(const Config& c, Stat* st = nullptr) { const long 
     return err;
 }
 
+// a tissue with more faces than a 16-bit counter can number (and more nodes than 32767): a row of 16 icospheres of 5120 faces, alternating epithelial / lumen, each dipping 0.1 into
+// the next.  The reference only visits the nodes that lie within cut-off + faceting error of a neighbouring sphere (the others are farther than the cut-off from every foreign face).
+static std::string run_large(Stat* st) {
+    const int NC = 16; std::vector<cell_ptr> cells, clone; auto mk = [&](std::vector<cell_ptr>& out) { for (int i = 0; i < NC; i++) { auto t = sc::make_cell_type(i % 2 ? 2 : 0, 3); t->surface_coupling_max_curvature_ = 1e30; for (auto& f : t->face_types_) { f.adherence_strength_ = 2.0; f.repulsion_strength_ = 3.0; } out.push_back(sc::make_cell(sc::translated(sc::icosphere(4), 1.9 * i, 0.02 * (i % 3), -0.01 * (i % 2)), (unsigned)i, t, true)); } prepare(out); };
+    mk(cells); mk(clone); size_t nfaces = 0, nnodes = 0; for (auto& c : cells) { nfaces += c->get_nb_of_faces(); nnodes += c->get_nb_of_nodes(); } if (nfaces <= 65536 || nnodes <= 32767) return "INTERNAL the large tissue is not large enough";
+    global_simulation_parameters sp = sc::make_sim_params("unused", 0.05); sp.contact_cutoff_adhesion_ = 0.08; sp.contact_cutoff_repulsion_ = 0.08; const double cutoff = 0.08; Model model(sp), model_ref(sp); char buf[400]; std::string err;
+    zero_forces(cells); candidates().clear(); collecting() = true; model.run(cells); collecting() = false;
+    zero_forces(clone); long within = 0;
+    for (int i = 0; i < NC && err.empty(); i++) for (int j = std::max(0, i - 1); j <= std::min(NC - 1, i + 1) && err.empty(); j++) { if (i == j) continue; const vec3 cj(1.9 * j, 0.02 * (j % 3), -0.01 * (j % 2));
+        for (unsigned ni = 0; ni < clone[i]->node_lst_.size() && err.empty(); ni++) { node& n = clone[i]->node_lst_[ni]; if (!n.is_used_ || !node_prefilter(*clone[i], n)) continue; const double r = (n.pos_ - cj).norm(); if (r > 1.0 + cutoff + 0.01 || r < 1.0 - cutoff - 0.02) continue;
+            for (unsigned fi = 0; fi < clone[j]->face_lst_.size(); fi++) { face& f = clone[j]->face_lst_[fi]; if (!f.is_used_) continue; const vec3& a = clone[j]->node_lst_[f.n1_id_].pos_; if ((a - n.pos_).squared_norm() > 0.04) continue;   // faces of a 5120-face unit icosphere are < 0.08 wide
+                long double d2 = dist2_point_triangle(n.pos_, a, clone[j]->node_lst_[f.n2_id_].pos_, clone[j]->node_lst_[f.n3_id_].pos_); if (!pair_prefilter(n, f)) continue;
+                if (d2 <= (long double)cutoff * cutoff * (1 - 1e-9L)) { within++; if (!candidates().count({&cells[i]->node_lst_[ni], &cells[j]->face_lst_[fi]})) { snprintf(buf, sizeof buf, "pair-within-cutoff-not-presented-to-the-contact-rules: node %u of cell %d and face %u of cell %d (global face number %zu) at distance %.6Lg (cut-off %.6g), tissue of %zu faces", ni, i, fi, j, (size_t)j * 5120 + fi, sqrtl(d2), cutoff, nfaces); err = buf; break; } }
+                narrow(model_ref, clone[i], clone[j], n, &f); } } }
+    if (err.empty() && !within) err = "INTERNAL no pair within the cut-off in the large tissue";
+    if (err.empty()) { ForceSnap A = forces_of(cells), B = forces_of(clone); double scale = 0; for (auto& v : B.f) for (auto& x : v) scale = std::max(scale, x.norm());
+        for (unsigned i = 0; i < cells.size() && err.empty(); i++) for (unsigned k = 0; k < A.f[i].size(); k++) { vec3 d = A.f[i][k] - B.f[i][k]; if (d.norm() > 1e-9 * (scale + 1e-300)) { snprintf(buf, sizeof buf, "contact-forces-differ-from-all-pairs-application-of-the-same-rules: large tissue, cell %u node %u: (%.9g,%.9g,%.9g) vs (%.9g,%.9g,%.9g)", i, k, A.f[i][k].dx(), A.f[i][k].dy(), A.f[i][k].dz(), B.f[i][k].dx(), B.f[i][k].dy(), B.f[i][k].dz()); err = buf; break; } } }
+    if (st) { st->pairs_within += within; st->candidates += (long)candidates().size(); }
+    for (auto& x : cells) x->clear_data(); for (auto& x : clone) x->clear_data(); candidates().clear();
+    return err;
+}
+
 static void setup() { using namespace sc; g_meshes = {octahedron(), translated(cube12(), -0.5, -0.5, -0.5), icosphere(1)}; g_meshes[1].name = "cube12_centred"; }
 
 static void explore(Result& R) {
@@ -75,6 +97,7 @@ static void explore(Result& R) {
         if (!e.empty()) R.violation(clause_of(e) + "|gt=" + std::to_string(gt), cfg_json(c) + ": " + e, "cfg=" + cfg_text(c) + "\n");
         if (configs % 3000 == 1) R.sample(cfg_json(c)); } }
 done:
+    if (R.args.mine(0) || R.args.nshards == 1) { progress("mode=large\n"); std::string e = run_large(&st); configs++; R["large_tissue_runs"] = 1; if (e.rfind("INTERNAL", 0) == 0) { R.internal_error = e; } else if (!e.empty()) R.violation(clause_of(e) + "|large-tissue", e, "mode=large\n"); }
     R["evaluations"] = configs; R["states"] = configs; R["transitions"] = st.candidates + st.narrow_calls; R["distinct_nontrivial"] = st.configs_with_pair_within; R["traces_validated_against_impl"] = configs;
     R["pairs_within_cutoff_checked"] = st.pairs_within; R["candidates_reported_by_the_model"] = st.candidates; R["reference_narrow_phase_calls"] = st.narrow_calls; R["configurations_with_nonzero_contact_force"] = st.nonzero_force_cases;
     R.tables["build"]["contact_model_index"] = CONTACT_MODEL_INDEX; R["configurations_with_free_face_slots"] = g_free_slot_configs; if (configs && !g_free_slot_configs && R.args.nshards == 1) R.internal_error = "no configuration carried free face slots (vacuous)";
@@ -82,5 +105,6 @@ done:
     R.strings["rule"] = "distinct_nontrivial = configurations (distinct tuples by construction) with at least one node-triangle pair of different cells within the cut-off; a configuration = (two or three cells: meshes, size of the second, relative offset on a half-size lattice from overlapping to far, global dyadic translation incl. +-1024.25 and straddling the origin, cut-off pair, min edge length = voxel alignment, cell types, history: fresh cells / cells that went through a real edge collapse and carry free slots / the same with persistent ids ahead of list positions); the real contact_model::run is executed; every (node, triangle) pair of different cells whose independently computed distance is within the larger cut-off and which passes the model's own pre-filters must appear among the H4 candidate reports; node forces must equal those of applying the model's own narrow-phase routine to all pairs of a cloned tissue";
     R.assumptions = {"pairs within 1e-9 relative of the cut-off are not judged", "force comparison (b) is skipped for epithelial-epithelial pairs in the coupling models (couplings depend on processing order); (a) still applies", "equal contact strengths on all face types (strength differences are C07's business)", "node normals/curvatures and face normals are fresh, as after the forces phase"};
 }
-static int replay(const Replay& rp, Result& R) { setup(); Config c = cfg_parse(rp.get("cfg")); std::string e1 = run_config(c), e2 = run_config(c); if (e1 != e2) { printf("replay diverged\n"); return 0; } printf("%s\n%s\n", cfg_json(c).c_str(), e1.c_str()); if (!e1.empty()) { R.violation(clause_of(e1), e1, ""); return 1; } return 0; }
+static int replay(const Replay& rp, Result& R) { setup(); if (rp.get("mode") == "large") { std::string a = run_large(nullptr), b = run_large(nullptr); if (a != b) { printf("replay diverged\n"); return 0; } printf("%s\n", a.c_str()); if (!a.empty()) { R.violation(clause_of(a), a, ""); return 1; } return 0; }
+    Config c = cfg_parse(rp.get("cfg")); std::string e1 = run_config(c), e2 = run_config(c); if (e1 != e2) { printf("replay diverged\n"); return 0; } printf("%s\n%s\n", cfg_json(c).c_str(), e1.c_str()); if (!e1.empty()) { R.violation(clause_of(e1), e1, ""); return 1; } return 0; }
 int main(int argc, char** argv) { return run_main(argc, argv, "C06", explore, replay); }
